@@ -60,6 +60,7 @@ void __wrap_free(void* p) { if (p) noteAlloc(); __real_free(p); }
 static constexpr size_t STORE_SIZE = sizeof(Instance) + 64;
 alignas(64) static unsigned char g_store[4][STORE_SIZE];
 static cfg::CtxData g_ctx[4];
+static cfg::CtxData g_ctxAlt[4];
 #if HAS_LOG
 static cfg::Lg g_lg[4];
 #endif
@@ -148,7 +149,13 @@ static Obs observe(Inst& in) {
 	const Instance& m = *in.obj;
 	const ffsm2::StateID a = m.activeStateId();
 	o.active = a == ffsm2::INVALID_STATE_ID ? -1 : a;
-	for (unsigned i = 0; i < N; ++i) if (m.isActive(static_cast<StateID>(i))) o.mask |= 1u << i;
+	for (unsigned i = 0; i < N; ++i) {
+		const bool a1 = m.isActive(static_cast<StateID>(i));
+		bool a2 = a1;
+		FOR_STATE(i, T, a2 = m.template isActive<T>());
+		if (a1 != a2) w.V("C01", "isActive<T>-disagrees-with-isActive(id)", fmt("isActive(%u)=%d, isActive<T>()=%d", i, int(a1), int(a2)));
+		if (a1) o.mask |= 1u << i;
+	}
 #if CFG_MANUAL
 	o.isActiveFlag = m.isActive();
 #else
@@ -292,9 +299,11 @@ static void opUpdate(Inst& in) {
 static void opReact(Inst& in, uint32_t value) {
 	World& w = *W;
 	const cfg::Ev1 e{value};
-	w.curEvent = &e;
+	const cfg::Ev2 e2{value, ~uint64_t(value)};
+	const bool second = (value & 1) != 0;       // two event types
+	w.curEvent = second ? static_cast<const void*>(&e2) : static_cast<const void*>(&e);
 	w.apiBegin(in, OP_REACT);
-	LIB(in.obj->react(e));
+	if (second) LIB(in.obj->react(e2)); else LIB(in.obj->react(e));
 	w.apiEnd(in);
 	w.curEvent = nullptr;
 	checkObs(in, "react()");
@@ -311,9 +320,11 @@ static void opQuery(Inst& in) {
 	const std::vector<uint8_t> bytesBefore = saveBytes(in);
 #endif
 	cfg::Ev1 e{42};
-	w.curEvent = &e;
+	cfg::Ev2 e2{1, 2};
+	const bool second = w.ch.draw(2) == 1;
+	w.curEvent = second ? static_cast<const void*>(&e2) : static_cast<const void*>(&e);
 	w.apiBegin(in, OP_QUERY);
-	LIB(static_cast<const Instance*>(in.obj)->query(e));
+	if (second) LIB(static_cast<const Instance*>(in.obj)->query(e2)); else LIB(static_cast<const Instance*>(in.obj)->query(e));
 	w.apiEnd(in);
 	w.curEvent = nullptr;
 	w.flags |= F_QUERY;
@@ -332,16 +343,23 @@ static void opChange(Inst& in, uint8_t dest, bool withPayload, bool immediate) {
 	const uint8_t op = immediate ? (withPayload ? OP_IMMEDIATE_WITH : OP_IMMEDIATE) : (withPayload ? OP_CHANGE_WITH : OP_CHANGE);
 	Obs before;
 	if (!immediate) before = observe(in);
+	const bool byType = in.policy == POL_CHOOSER && typeForm();
 	w.apiBegin(in, op, dest, 255, tag);
 	w.act(in, withPayload ? ACT_CHANGE_WITH : ACT_CHANGE, dest, 255, tag);
 	w.noteRequest(in, 255, dest, withPayload, tag);
 	if (immediate) { w.immOwn = in.loggerAttached; w.immCount = 0; }
 	else { w.ownRequest = true; w.ownLogCount = 0; }
 #if HAS_PAYLOAD
-	if (withPayload) { const cfg::Payload pl = cfg::makePayload(tag); if (immediate) LIB(in.obj->immediateChangeWith(static_cast<StateID>(dest), pl)); else LIB(in.obj->changeWith(static_cast<StateID>(dest), pl)); }
-	else
+	if (withPayload) {
+		const cfg::Payload pl = cfg::makePayload(tag);
+		if (byType) { if (immediate) FOR_STATE(dest, T, LIB(in.obj->template immediateChangeWith<T>(pl))); else FOR_STATE(dest, T, LIB(in.obj->template changeWith<T>(pl))); }
+		else { if (immediate) LIB(in.obj->immediateChangeWith(static_cast<StateID>(dest), pl)); else LIB(in.obj->changeWith(static_cast<StateID>(dest), pl)); }
+	} else
 #endif
-	{ if (immediate) LIB(in.obj->immediateChangeTo(static_cast<StateID>(dest))); else LIB(in.obj->changeTo(static_cast<StateID>(dest))); }
+	{
+		if (byType) { if (immediate) FOR_STATE(dest, T, LIB(in.obj->template immediateChangeTo<T>())); else FOR_STATE(dest, T, LIB(in.obj->template changeTo<T>())); }
+		else { if (immediate) LIB(in.obj->immediateChangeTo(static_cast<StateID>(dest))); else LIB(in.obj->changeTo(static_cast<StateID>(dest))); }
+	}
 	if (immediate) {
 		if (HAS_LOG && in.loggerAttached && (w.immCount != 1 || w.immOwn))
 			w.V("C16", "action-record-mismatch|immediateChangeTo", fmt("immediateChange(%u) produced %u transition records for the request itself; %s", dest, w.immCount, w.tail().c_str()));
@@ -369,7 +387,8 @@ static void opReport(Inst& in, bool success, uint8_t target) {
 	w.apiBegin(in, success ? OP_SUCCEED : OP_FAIL, target);
 	w.act(in, success ? ACT_SUCCEED : ACT_FAIL, target, 255);
 	w.ownReport = true; w.ownLogCount = 0;
-	if (success) LIB(in.obj->succeed(static_cast<StateID>(target))); else LIB(in.obj->fail(static_cast<StateID>(target)));
+	if (typeForm()) { if (success) FOR_STATE(target, T, LIB(in.obj->template succeed<T>())); else FOR_STATE(target, T, LIB(in.obj->template fail<T>())); }
+	else { if (success) LIB(in.obj->succeed(static_cast<StateID>(target))); else LIB(in.obj->fail(static_cast<StateID>(target))); }
 	w.ownReport = false;
 	w.noteReport(in, success, target, 255, false);
 	w.expectOwnLog(in, LOG_TASK_STATUS, target, success ? 1 : 0, success ? "succeed(external)" : "fail(external)");
@@ -407,6 +426,22 @@ static void opLeakProbe(Inst& in) {
 	checkObs(in, "leak probe");
 }
 #endif
+
+// pointer contexts can be re-pointed at run time
+static void opSetContext(Inst& in) {
+#if CFG_CTX == 3
+	World& w = *W;
+	cfg::CtxData* const target = in.ctxExpected == &g_ctx[in.slot] ? &g_ctxAlt[in.slot] : &g_ctx[in.slot];
+	w.apiBegin(in, OP_OBSERVE);
+	LIB(in.obj->setContext(target));
+	in.ctxExpected = target;
+	w.apiEnd(in);
+	if (static_cast<const void*>(in.obj->context()) != target) w.V("C06", "setContext-not-reflected-by-context()", "Instance::context() does not return the pointer given to setContext()");
+	w.stats.add("setContext_calls");
+#else
+	(void) in;
+#endif
+}
 
 static void opAttach(Inst& in, bool attach) {
 #if HAS_LOG
@@ -538,7 +573,7 @@ struct Case {
 		case 7: d.op = OP_SAVE; break;
 		case 8: d.op = OP_COPY; break;
 		case 9: d.op = OP_EXIT; break;
-		default: d.op = OP_OBSERVE; break;
+		default: d.op = OP_OBSERVE; d.value = w.ch.draw(2); break;
 		}
 		return d;
 	}
@@ -557,7 +592,7 @@ struct Case {
 		case OP_PLAN_REMOVE: opPlanEdit(in, 1, 0, 0, false, d.value); break;
 		case OP_PLAN_CLEAR: if (d.value) opLeakProbe(in); else opPlanEdit(in, 2, 0, 0, false, 0); break;
 #endif
-		case OP_OBSERVE: checkObs(in, "observe"); break;
+		case OP_OBSERVE: if (CFG_CTX == 3 && d.value) opSetContext(in); checkObs(in, "observe"); break;
 		default: break;
 		}
 	}
